@@ -218,7 +218,7 @@ func runPool(r *vcore.Run, tasks []task, n int, defWatchdog time.Duration) {
 					}
 					if r != nil {
 						f := t.fam
-						if i := strings.IndexByte(f, '/'); i > 0 {
+						if i := strings.IndexByte(f, '/'); i > 0 && !strings.HasPrefix(f, "pair/") {
 							f = f[:i]
 						}
 						r.Count("pool.worker-ms."+f, int(o.Ms))
